@@ -409,8 +409,13 @@ def run_history(inside, ops, selective=False):
             while sim.stack:
                 sim.apply(("leave",))
         else:
-            enc = sim._mk_overlay(ENCLOSING)
-            sim._enter(enc)
+            # inside == "bare": fd runs with no overlay around it (an instrumented call with an
+            # empty handler collection), and the overlays its script entered are still open when
+            # it returns: they must then be installed at top level, where they are left
+            bare = inside == "bare"
+            enc = None if bare else sim._mk_overlay(ENCLOSING)
+            if not bare:
+                sim._enter(enc)
             tr = sim.trace
             act = M.Act(len(tr.acts), "fd", None, None)
             tr.acts.append(act)
@@ -438,13 +443,21 @@ def run_history(inside, ops, selective=False):
                     except PropertyViolation as v:
                         err.append(v)
 
-            script.append(unwind)
+            if not bare:
+                script.append(unwind)
             sim.tf["fd"](script)
             if err:
                 raise err[0]
             sim.in_fd = False
             sim.base = None
-            sim._leave(enc)
+            if bare:
+                if sim.stack:
+                    sim.flags.add("overlay-outlives-the-call-that-entered-it")
+                sim.check()
+                while sim.stack:
+                    sim.apply(("leave",))
+            else:
+                sim._leave(enc)
             sim.check()
     finally:
         sim.cleanup()
@@ -485,7 +498,7 @@ def strategy(max_ops):
         lambda gs: [g for g, _ in gs] + [("next", i) for i, (_, k) in enumerate(gs) for _ in range(1 if k else 0)]
         + [("next", i) for i in range(len(gs))])
     gens_first = st.tuples(started, st.lists(ov, min_size=1, max_size=2), body).map(lambda t: t[0] + t[1] + t[2])
-    return st.tuples(st.booleans(), st.one_of(overlays_first, overlays_first, gens_first), st.booleans())
+    return st.tuples(st.sampled_from([True, False, True, False, "bare"]), st.one_of(overlays_first, overlays_first, gens_first), st.booleans())
 
 
 def plan(tier, seed, scale):
@@ -512,7 +525,7 @@ def shard(cfg):
         sim = run_history(inside, ops, selective)
         fl = set(sim.flags)
         nt = bool(fl & {"call-while-suspended", "non-lifo-finish", "gen-outlives-overlay"})
-        fl.add("inside-fd" if inside else "top-level")
+        fl.add(("inside-fd-bare" if inside == "bare" else "inside-fd") if inside else "top-level")
         fl.add("probes-on-raw-functions" if selective else "overlays-on-tooled-copies")
         rec.case(h64(repr(case)), nt, fl, sample=lambda: {"inside_fd": inside, "ops": [_brief(o) for o in ops]})
         rec.evaluations += len(ops) - 1
